@@ -29,7 +29,9 @@ from vlib.stepmeter import METER, BudgetExceeded
 QUICK_DIALECTS = ["", "bigquery", "clickhouse", "duckdb", "mysql", "postgres", "snowflake", "tsql"]
 MENU = ["SELECT", "FROM", "WHERE", "GROUP BY", "ORDER BY", "JOIN", "ON", "AS", "AND", "OR", "NOT", "IN", "IS", "NULL", "CASE",
         "WHEN", "THEN", "ELSE", "END", "UNION", "WITH", "INSERT", "INTO", "VALUES", "CREATE", "TABLE", "(", ")", ",", ";", ".",
-        "*", "=", "+", "-", "'s'", "1", "a", "::", "["]
+        "*", "=", "+", "-", "'s'", "1", "a", "::", "[",
+        # number-like lexemes that are no numbers (a builder that calls int() / to_py() on the text)
+        "1e", "0x", "1.2.3"]
 ALL_TARGETS: list = []
 LEVELS = {"IMMEDIATE": ErrorLevel.IMMEDIATE, "RAISE": ErrorLevel.RAISE, "WARN": ErrorLevel.WARN, "IGNORE": ErrorLevel.IGNORE}
 
@@ -425,8 +427,8 @@ def run(ctx: Ctx) -> None:
         {
             "evaluations": res["evaluations"],
             "distinct_nontrivial": res["nontrivial"],
-            "rule": "every 1-token mutant (delete/duplicate/swap; insert of each of 40 menu tokens for the simplest seeds) and every prefix of "
-                    "G_core k<=1 statements, of identity.sql and of every statement of tests/dialects/*.py in its own dialect (" + str(len(corpus.dialect_test_sql())) + " seeds); every token soup of length <= 3 over the 40-token menu; every "
+            "rule": "every 1-token mutant (delete/duplicate/swap; insert of each of 43 menu tokens for the simplest seeds) and every prefix of "
+                    "G_core k<=1 statements, of identity.sql and of every statement of tests/dialects/*.py in its own dialect (" + str(len(corpus.dialect_test_sql())) + " seeds); every token soup of length <= 3 over the 43-token menu; every "
                     "character string of length <= 3 over a 34-character alphabet; 84 pumping families (repetition to 64, nesting to 32; every construct with an expression / query hole nested in itself to 8) in all dialects; every registered function name and type keyword nested in itself to depth 4 and 8; x dialects x "
                     "error levels; every returned tree generated in its own and the base dialect; every G_clauses statement (base) and every "
                     "dialect-test statement (own dialect) generated into ALL dialects; every function name registered by each dialect's parser called "
